@@ -812,6 +812,20 @@ func c08TopFrames(stacks []string) string {
 	return sb.String()
 }
 
+// c08Watch is the per-call watchdog: a call of the library made by a lane itself (closing a response
+// body, a follow-up request, …) runs in a goroutine of its own and is given up on after c08HardLimit — a
+// wedged call is reported by name by the lane instead of running the whole package into its time-out.
+func c08Watch(what string, fn func()) (wedged string) {
+	done := make(chan struct{})
+	go func() { defer close(done); fn() }()
+	select {
+	case <-done:
+		return ""
+	case <-time.After(c08HardLimit):
+		return what + " did not return within " + c08HardLimit.String()
+	}
+}
+
 // c08WaitFor polls cond (an in-package observation of the transport) up to bound.
 func c08WaitFor(bound time.Duration, cond func() bool) bool {
 	deadline := time.Now().Add(bound)
